@@ -268,7 +268,7 @@ func (eng *Engine) replay(o *Obligation, work string) *replayResult {
 			s.Asserts = append(s.Asserts, side...)
 		}
 		if fx.usesSpec {
-			s.Prelude = eng.specText
+			s.Prelude = fx.specPrelude()
 		}
 		script := s.Render("", gv)
 		r := solveScript(script, work, 20, seedFromEnv(), "")
